@@ -186,6 +186,43 @@ func freeMain(cfgFile string, real bool, work string) {
 	_ = json.NewEncoder(os.Stdout).Encode(out)
 }
 
+// racePass runs cfg freely under the race detector (the cooperative hand-offs hide races from it) and returns
+// the number of reports and the top of the first one. Informational: unsynchronised accesses are a stated limit.
+func racePass(cfg *Config, work string) (int, string, error) {
+	helper := os.Getenv("VERIF_HELPER_E1_FREE_RACE")
+	if helper == "" {
+		return 0, "", fmt.Errorf("no race twin built")
+	}
+	dir, _ := os.MkdirTemp(work, "race-")
+	defer os.RemoveAll(dir)
+	cf := filepath.Join(dir, "cfg.json")
+	b, _ := json.Marshal(cfg)
+	_ = os.WriteFile(cf, b, 0o644)
+	cmd := exec.Command(helper, "-work", dir, "-free", cf)
+	cmd.Env = []string{"GOMAXPROCS=4", "PATH=" + os.Getenv("PATH"), "HOME=" + os.Getenv("HOME"), "TZ=UTC", "LANG=C", "GORACE=halt_on_error=0 exitcode=0"}
+	var so, se bytes.Buffer
+	cmd.Stdout, cmd.Stderr = &so, &se
+	if e := cmd.Run(); e != nil {
+		return 0, "", fmt.Errorf("race twin failed: %v: %s", e, firstLines(se.String(), 10))
+	}
+	out := se.String()
+	n := strings.Count(out, "WARNING: DATA RACE")
+	first := ""
+	if i := strings.Index(out, "WARNING: DATA RACE"); i >= 0 {
+		var keep []string
+		for _, l := range strings.Split(out[i:], "\n") {
+			if strings.Contains(l, "internal/") && !strings.Contains(l, "zzverif") {
+				keep = append(keep, strings.TrimSpace(l))
+			}
+			if len(keep) >= 4 {
+				break
+			}
+		}
+		first = strings.Join(keep, " | ")
+	}
+	return n, first, nil
+}
+
 // conform asks the free-running twin for the outcome of cfg and checks membership.
 func conform(cfg *Config, outcomes map[string]struct{}, work string, real bool) (ok bool, key string, err error) {
 	helper := os.Getenv("VERIF_HELPER_E1_FREE")
